@@ -153,7 +153,7 @@ func c17(w *core.World, r *core.Report) {
 				if f.Blocks == nil {
 					continue
 				}
-				for _, c := range core.CallsTo(f, kLVGHP) {
+				for _, c := range core.OwnCallsTo(f, kLVGHP) {
 					a := core.CallArgs(c)
 					b, isC := constBoolInScope(w, scope, a[0], 2)
 					n++
